@@ -426,7 +426,7 @@ func (this *Dataset) Search(ctx context.Context, query math.Vector, k uint) (ind
 		go this.searchPartitionsOnNode(ctx, nodeId, partitionIds, query, k, wg, resultCh, errorCh)
 	}
 
-	result := make(index.SearchResult, 0, int(k)*len(nodePartitions))
+	result := make(index.SearchResult, 0)
 	for i := 0; i < len(nodePartitions); i++ {
 		select {
 		case items := <-resultCh:
@@ -443,6 +443,10 @@ func (this *Dataset) Search(ctx context.Context, query math.Vector, k uint) (ind
 }
 
 func (this *Dataset) SearchPartitions(ctx context.Context, partitionIds []uuid.UUID, query math.Vector, k uint) (index.SearchResult, error) {
+	if err := this.checkDimension(&query); err != nil {
+		return nil, err
+	}
+
 	var err error
 	partitions := make([]*partition, len(partitionIds))
 	for i, partitionId := range partitionIds {
@@ -464,7 +468,7 @@ func (this *Dataset) SearchPartitions(ctx context.Context, partitionIds []uuid.U
 		go this.searchPartition(ctx, partition, query, k, wg, resultCh, errorCh)
 	}
 
-	result := make(index.SearchResult, 0, int(k)*len(partitions))
+	result := make(index.SearchResult, 0)
 	for i := 0; i < len(partitions); i++ {
 		select {
 		case items := <-resultCh:
